@@ -60,6 +60,9 @@ def _item(case, lean):
     over_k = 0
     for u in list(ds.users.ids())[:4]:
         hist = ds.user_row(u); items = ItemList(item_ids=list(ds.items.ids()))
+        if len(hist) > 1:
+            # a caller-supplied history need not be in vocabulary order: present it in a scrambled order
+            order = np.random.default_rng(case.get("seed", 0) + int(u)).permutation(len(hist)); hist = hist[order]
         sc = m(RecQuery(user_id=u, user_items=hist), items).scores()
         hn = hist.numbers(vocabulary=m.items_); hr = hist.field("rating") if explicit else np.ones(len(hn))
         for t in range(len(items)):
